@@ -1493,6 +1493,7 @@ interior-mutability fields inside the crate types the protected value mentions. 
 
 section T8
 open Share Intern
+variable {ι : Type} [DecidableEq ι]
 
 /-- **T8 (a) — double-checked get-or-insert is the sequential table.** Any number
 of threads, each interning the text `key t`, under EVERY schedule of their
@@ -1591,6 +1592,40 @@ example :
     globalsRecheck (exInterner [.insert, .insert]) = false
     ∧ globalsRecheck (exInterner [.lookup, .insert, .insert]) = true
     ∧ globalsRecheck { threadLocals := 0, statics := [{ kind := .mutex, isMut := false, uses := [.lock], fns := [{ sections := [{ use := .lock, ops := [.lookup, .insert] }] }] }] } = true := by
+  decide
+
+/-- **T8 (a), atomicity of the inserting section (lock machine).** If every
+section that inserts into a process-global table was acquired exclusively
+(`globalsInsertExclusive`, decided on the generated sections), then in every
+trace the lock admits — any number of threads, each running some section of some
+accessor — a thread that accesses the table inside an inserting section is the
+ONLY holder: the `missed` step of the machine above is one atomic step. -/
+theorem global_insert_section_alone (f : GlobalFacts) (h : globalsInsertExclusive f = true)
+    (s : StaticFact) (hs : s ∈ f.statics) (fn : GlobalFn) (hfn : fn ∈ s.fns)
+    (sec : GlobalSection) (hsec : sec ∈ fn.sections) (hins : sec.ops.contains .insert = true)
+    (use : ι → GlobalUse) (i : ι) (hi : use i = sec.use)
+    (pre post : List (Ev ι)) (w : Bool) (Hf : List ι)
+    (hrun : runLock s.kind.lockKind (fun j => ((use j).mode).getD .mutexLock) [] (pre ++ .acc i w :: post) = some Hf) :
+    runLock s.kind.lockKind (fun j => ((use j).mode).getD .mutexLock) [] pre = some [i] := by
+  unfold globalsInsertExclusive at h
+  simp only [List.all_eq_true] at h
+  have h1 := h s hs fn hfn sec hsec
+  rw [hins] at h1
+  simp only [Bool.not_true, Bool.false_or] at h1
+  have hg : grantsExcl s.kind.lockKind (((use i).mode).getD .mutexLock) = true := by
+    rw [hi]
+    cases hm : sec.use.mode with
+    | none => rw [hm] at h1; cases h1
+    | some m => rw [hm] at h1; simpa using h1
+  obtain ⟨H, hpre, hw, _⟩ := exclusive_writes s.kind.lockKind _ pre post (.acc i w) Hf hrun
+  rw [hpre, hw i w rfl hg]
+
+/-- on the current tree every inserting section holds the registry's `Mutex` -/
+theorem globals_inserts_exclusive_on_tree : globalsInsertExclusive Gen.C12Globals.facts = true := by decide
+
+example :
+    globalsInsertExclusive (exInterner [.insert]) = true
+    ∧ globalsInsertExclusive { threadLocals := 0, statics := [{ kind := .rwlock, isMut := false, uses := [.read], fns := [{ sections := [{ use := .read, ops := [.insert] }] }] }] } = false := by
   decide
 
 /-- the generated facts do contain a get-or-insert function (so the obligation
